@@ -19,6 +19,7 @@ import (
 	"net/netip"
 	"os"
 	"runtime"
+	"sort"
 	"strconv"
 	"strings"
 	"sync"
@@ -51,6 +52,11 @@ type c20Op struct {
 	Pkts  []c20Pkt `json:"pkts"`
 	End   string   `json:"end"`  // rend: "timeout" | "cancel" (how a Respond that is still waiting is ended)
 	Tick  int      `json:"tick"` // rstart: hello ticker periods to let pass once Respond is blocked
+	// rstart: the remaining arguments of Respond (absent = one usable IPv4 peer, 400 ms / 50 ms, any family)
+	Peers []string `json:"peers"` // peer candidates as netip.AddrPort text, "" = the zero AddrPort; nil = default
+	Fam   int      `json:"fam"`   // PunchConfig.Family
+	Tmo   *int64   `json:"tmo"`   // PunchConfig.Timeout in ms (may be 0 or negative)
+	Itv   *int64   `json:"itv"`   // PunchConfig.Interval in ms (may be 0 or negative)
 }
 
 type c20Want struct {
@@ -184,6 +190,8 @@ func TestVerifC20(t *testing.T) {
 		{"PunchPacketAck", "N", strconv.Itoa(int(PunchPacketAck))},
 		{"defaultPunchEventBuffer", "nat", strconv.Itoa(defaultPunchEventBuffer)},
 		{"defaultServerPunchEventBuffer", "nat", strconv.Itoa(defaultServerPunchEventBuffer)},
+		{"defaultPunchTimeout", "Z", strconv.FormatInt(int64(defaultPunchTimeout), 10)},
+		{"defaultPunchInterval", "Z", strconv.FormatInt(int64(defaultPunchInterval), 10)},
 		{"punchMagic", "raw", magic},
 	})
 	out := vOpenOut(t, "VERIF_OUT")
@@ -637,7 +645,7 @@ type c20Resp struct {
 	err error
 }
 
-// a ServerPuncher.Respond call in flight (at most one per history)
+// a ServerPuncher.Respond call that is waiting in its select (at most one at a time per history)
 type c20Flight struct {
 	id       string
 	meta     PunchMetadata
@@ -645,12 +653,45 @@ type c20Flight struct {
 	cancel   context.CancelFunc
 	finished bool // Respond has returned with a punch packet
 	resp     c20Resp
+	timeout  time.Duration // effective timeout of the call
+}
+
+// which exit Respond took, as a small enum
+func c20RespondErrClass(err error) string {
+	if err == nil {
+		return ""
+	}
+	s := err.Error()
+	switch {
+	case errors.Is(err, ErrInvalidPunchAttempt) && strings.HasSuffix(s, "id is required"):
+		return "id"
+	case errors.Is(err, ErrInvalidPunchAttempt) && strings.HasSuffix(s, "duplicate id"):
+		return "dup"
+	case errors.Is(err, ErrInvalidPunchConfig) && strings.HasSuffix(s, "no compatible peer addresses"):
+		return "cand"
+	case errors.Is(err, ErrInvalidPunchConfig) && strings.HasSuffix(s, "timeout must not be negative"):
+		return "timeout"
+	case errors.Is(err, ErrInvalidPunchConfig) && strings.HasSuffix(s, "interval must be positive"):
+		return "interval"
+	case errors.Is(err, ErrPunchTimeout):
+		return "punchtimeout"
+	case errors.Is(err, context.Canceled):
+		return "canceled"
+	case c20ErrClass(err) == "meta":
+		return "meta"
+	}
+	return "other"
 }
 
 // c20Server runs a history of ServerPuncher inside a synctest bubble.  Ops:
 //
 //	add / rm      addAttempt / removeAttempt called directly (other attempts in progress)
-//	rstart        Respond(id, meta) started in its own goroutine and observed once it is blocked
+//	rstart        Respond(id, peers, meta, config) started in its own goroutine, under a context that
+//	              is NOT derived from the puncher's, and observed once it is blocked or has returned
+//	              (validation exits, duplicate id); calls that return at once may be made while
+//	              another Respond waits
+//	pstop         the lifetime context given to NewServerPuncher is cancelled and the dispatch
+//	              goroutine is left to return; everything else (the conn, Responds in flight) goes on
 //	pkts          datagrams read through the PunchPacketConn (the QUIC read loop); before each
 //	              underlying read everything the previous datagram triggered has settled
 //	              (dispatch, Respond returning through its deferred removeAttempt)
@@ -662,8 +703,10 @@ type c20Flight struct {
 // implementation's own decoder and pion: a datagram must be withheld iff it is a STUN response or
 // decodes (from a usable source) under an attempt that is registered at that moment; everything
 // else must come out of ReadFrom byte-identical, with its address, in order.  In particular the
-// punch packets of an attempt whose Respond has returned must reach the reader, and its id must
-// be free again.
+// punch packets of an attempt whose Respond has returned - through ANY of its exits - must reach
+// the reader, and its id must be free again.  After every op both registries are inspected
+// directly: PunchPacketConn.attempts must hold exactly the attempts of the calls that are still in
+// progress (addAttempt not yet removed, Respond waiting), ServerPuncher.attempts nothing else.
 func c20Server(c c20Case, res map[string]any) {
 	base := &c20Conn{}
 	wrapped, err := NewPunchPacketConn(c20NetConn{base}, c.Cap)
@@ -681,6 +724,7 @@ func c20Server(c c20Case, res map[string]any) {
 		return
 	}
 	defer func() { cancel(); synctest.Wait() }()
+	alive := true                             // the puncher's lifetime context has not been cancelled
 	base.hook = func(int) { synctest.Wait() } // the dispatcher has forwarded everything before the next datagram
 	ok, why := true, ""
 	fail := func(s string) {
@@ -737,10 +781,65 @@ func c20Server(c c20Case, res map[string]any) {
 		expectQ[id] = nil
 		return evs
 	}
+	// both registries, read directly, against the shadow registry
+	checkRegs := func(oi int) {
+		wrapped.mu.RLock()
+		onConn := make(map[string]PunchMetadata, len(wrapped.attempts))
+		for id, m := range wrapped.attempts {
+			onConn[id] = m
+		}
+		wrapped.mu.RUnlock()
+		sp.mu.Lock()
+		onSp := make([]string, 0, len(sp.attempts))
+		for id := range sp.attempts {
+			onSp = append(onSp, id)
+		}
+		sp.mu.Unlock()
+		ids := make([]string, 0, len(onConn))
+		for id := range onConn {
+			ids = append(ids, id)
+		}
+		sort.Strings(ids)
+		for _, id := range ids {
+			sm, reg := metas[id]
+			if g, was := gone[id]; !reg && was {
+				fail(fmt.Sprintf("op %d: after %s its attempt %q is still registered on the PunchPacketConn", oi, g.how, id))
+			} else if !reg {
+				fail(fmt.Sprintf("op %d: attempt %q is registered on the PunchPacketConn although no call in progress registered it", oi, id))
+			} else if sm != onConn[id] {
+				fail(fmt.Sprintf("op %d: attempt %q is registered on the PunchPacketConn under other metadata than its call passed", oi, id))
+			}
+		}
+		want := make([]string, 0, len(metas))
+		for id := range metas {
+			want = append(want, id)
+		}
+		sort.Strings(want)
+		for _, id := range want {
+			if _, on := onConn[id]; !on {
+				fail(fmt.Sprintf("op %d: attempt %q of a call in progress is missing from the PunchPacketConn registry", oi, id))
+			}
+		}
+		sort.Strings(onSp)
+		for _, id := range onSp {
+			if _, reg := metas[id]; reg {
+				continue
+			}
+			if g, was := gone[id]; was {
+				fail(fmt.Sprintf("op %d: after %s its id %q is still held by ServerPuncher.attempts", oi, g.how, id))
+			} else {
+				fail(fmt.Sprintf("op %d: id %q is held by ServerPuncher.attempts although no call in progress registered it", oi, id))
+			}
+		}
+	}
 	opsOut := make([]map[string]any, 0, len(c.Ops))
 	for oi, op := range c.Ops {
 		o := map[string]any{"op": op.Op}
 		switch op.Op {
+		case "pstop":
+			cancel()
+			synctest.Wait() // the dispatch goroutine has seen ctx.Done() and returned
+			alive = false
 		case "add":
 			meta := PunchMetadata{Nonce: op.Nonce, Obfs: op.Obfs}
 			ch, e := sp.addAttempt(op.Id, meta)
@@ -768,43 +867,106 @@ func c20Server(c c20Case, res map[string]any) {
 			delete(metas, op.Id)
 			delete(expectQ, op.Id)
 		case "rstart":
-			if fl != nil {
-				fail(fmt.Sprintf("op %d: harness: a Respond is already in flight", oi))
-				break
-			}
 			meta := PunchMetadata{Nonce: op.Nonce, Obfs: op.Obfs}
-			rctx, rcancel := context.WithCancel(ctx)
-			f := &c20Flight{id: op.Id, meta: meta, done: make(chan c20Resp, 1), cancel: rcancel}
 			local := []netip.AddrPort{netip.MustParseAddrPort("127.0.0.1:4433")}
 			peers := []netip.AddrPort{netip.MustParseAddrPort("192.0.2.7:40000")}
+			if op.Peers != nil {
+				peers = make([]netip.AddrPort, 0, len(op.Peers))
+				for _, ps := range op.Peers {
+					if ps == "" {
+						peers = append(peers, netip.AddrPort{})
+					} else {
+						peers = append(peers, netip.MustParseAddrPort(ps))
+					}
+				}
+			}
+			cfg := PunchConfig{Timeout: c20RespondTimeout, Interval: c20RespondInterval, Family: AddrFamily(op.Fam)}
+			if op.Tmo != nil {
+				cfg.Timeout = time.Duration(*op.Tmo) * time.Millisecond
+			}
+			if op.Itv != nil {
+				cfg.Interval = time.Duration(*op.Itv) * time.Millisecond
+			}
+			// oracle for the model: how many candidates the repo's address selection yields
+			o["ncand"] = len(candidatePunchAddrs(local, peers, effectiveFamily(cfg.Family, wrapped.LocalAddr())))
+			// expected exit, by an independent reading of the arguments (the socket is 127.0.0.1)
+			compat := 0
+			for _, a := range peers {
+				if !a.IsValid() || a.Port() == 0 {
+					continue
+				}
+				if (op.Fam != 2 && a.Addr().Is4()) || (op.Fam == 2 && a.Addr().Is6()) {
+					compat++
+				}
+			}
+			_, dup := metas[op.Id]
+			want := ""
+			switch {
+			case op.Id == "":
+				want = "the id is empty"
+			case !metaValid(meta):
+				want = "the metadata is malformed"
+			case compat == 0:
+				want = "no peer candidate is compatible with the socket"
+			case cfg.Timeout < 0:
+				want = "the timeout is negative"
+			case cfg.Interval < 0:
+				want = "the interval is negative"
+			case dup:
+				want = "the id is in use"
+			}
+			// the Respond context is the caller's: it does not end with the puncher's lifetime context
+			rctx, rcancel := context.WithCancel(context.Background())
+			f := &c20Flight{id: op.Id, meta: meta, done: make(chan c20Resp, 1), cancel: rcancel, timeout: cfg.Timeout}
+			if f.timeout == 0 {
+				f.timeout = defaultPunchTimeout
+			}
+			interval := cfg.Interval
+			if interval == 0 {
+				interval = defaultPunchInterval
+			}
 			go func() {
-				r, e := sp.Respond(rctx, f.id, local, peers, meta, PunchConfig{Timeout: c20RespondTimeout, Interval: c20RespondInterval})
+				r, e := sp.Respond(rctx, f.id, local, peers, meta, cfg)
 				f.done <- c20Resp{r, e}
 			}()
 			synctest.Wait()
-			_, dup := metas[op.Id]
-			valid := op.Id != "" && metaValid(meta) && !dup
 			select {
 			case r := <-f.done:
 				rcancel()
 				o["ok"] = false
+				o["err"] = c20RespondErrClass(r.err)
 				if r.err == nil {
 					fail(fmt.Sprintf("op %d: Respond(%q) returned success before any datagram arrived", oi, op.Id))
-				} else if g, was := gone[op.Id]; was && valid {
+				} else if g, was := gone[op.Id]; was && want == "" {
 					fail(fmt.Sprintf("op %d: attempt id %q cannot be used by Respond again after %s: %v", oi, op.Id, g.how, r.err))
-				} else if valid {
+				} else if want == "" {
 					fail(fmt.Sprintf("op %d: Respond(%q) rejected a valid attempt whose id is not in use: %v", oi, op.Id, r.err))
+				}
+				if !dup && r.err != nil { // this call is over and never owned a registration (a duplicate leaves the owner's alone)
+					gone[op.Id] = c20Gone{meta, "Respond(" + strconv.Quote(op.Id) + ") has returned (" + r.err.Error() + ")"}
 				}
 			default:
 				o["ok"] = true
-				if !valid {
-					fail(fmt.Sprintf("op %d: Respond(%q) registered an attempt that is invalid or whose id is in use", oi, op.Id))
+				if want != "" {
+					fail(fmt.Sprintf("op %d: Respond(%q) registered its attempt and waits although %s", oi, op.Id, want))
+				}
+				if fl != nil || want != "" { // not part of the history: end it at once
+					if fl != nil && want == "" {
+						fail(fmt.Sprintf("op %d: harness: a Respond is already waiting", oi))
+					}
+					rcancel()
+					synctest.Wait()
+					<-f.done
+					if !dup {
+						gone[op.Id] = c20Gone{meta, "Respond(" + strconv.Quote(op.Id) + ") has returned (cancelled)"}
+					}
+					break
 				}
 				metas[op.Id] = meta
 				delete(gone, op.Id)
 				fl = f
 				if op.Tick > 0 { // let the hello ticker fire; Respond must keep waiting
-					time.Sleep(time.Duration(op.Tick) * c20RespondInterval)
+					time.Sleep(time.Duration(op.Tick) * interval)
 					synctest.Wait()
 					select {
 					case r := <-f.done:
@@ -826,7 +988,7 @@ func c20Server(c c20Case, res map[string]any) {
 				if op.End == "cancel" {
 					fl.cancel()
 				} else {
-					time.Sleep(c20RespondTimeout + time.Millisecond)
+					time.Sleep(fl.timeout + time.Millisecond)
 				}
 				synctest.Wait()
 				select {
@@ -870,6 +1032,8 @@ func c20Server(c c20Case, res map[string]any) {
 					switch {
 					case r.err != nil:
 						fail(fmt.Sprintf("op %d: Respond(%q) failed while waiting: %v", oi, fl.id, r.err))
+					case !alive:
+						fail(fmt.Sprintf("op %d: Respond(%q) returned with an event although the dispatch goroutine has stopped", oi, fl.id))
 					case prev < 0 || !flHit[prev]:
 						fail(fmt.Sprintf("op %d: Respond(%q) returned although the last datagram (%d) is not a punch packet of its attempt", oi, fl.id, prev))
 					default:
@@ -911,6 +1075,8 @@ func c20Server(c c20Case, res map[string]any) {
 				switch {
 				case nhit == 0:
 					expPass[i] = true
+				case !alive:
+					// still withheld (the attempt is registered on the conn); nobody forwards the event
 				case nhit == 1 && flHit[i]:
 					flOnly[i] = true
 				case nhit == 1:
@@ -981,6 +1147,7 @@ func c20Server(c c20Case, res map[string]any) {
 		case "take":
 			o["evs"] = takeAll(oi, op.Id)
 		}
+		checkRegs(oi)
 		opsOut = append(opsOut, o)
 	}
 	if fl != nil {
